@@ -165,7 +165,17 @@ impl ValueRef {
         match value {
             Value::Null => ValueRef::Null,
             Value::Int(number) => ValueRef::Int(number),
-            Value::Str(string) => ValueRef::Str(string_pool.incref(string)),
+            Value::Str(string) => {
+                // The file format has a single value for the empty string and
+                // null (a string pool entry with zero length and a nonzero
+                // refcount would be misread as a long-string marker), so an
+                // empty string is stored as a null reference.
+                if string.is_empty() {
+                    ValueRef::Null
+                } else {
+                    ValueRef::Str(string_pool.incref(string))
+                }
+            }
         }
     }
 
